@@ -31,12 +31,13 @@ def isPrefixDefinedChain : List Tree → Nat → Bool
   | a :: rest, p => if containsKey a.nsDecls p then true else isPrefixDefinedChain rest p
 
 /-- `namespace_for_prefix`: first ancestor-or-self with a declaration of the prefix decides;
-    a binding to the no-namespace id gives `None` (for any prefix); then the base prefixes. -/
+    only `xmlns=""` (the EMPTY prefix bound to the no-namespace id) gives `None`; then the base
+    prefixes. -/
 def namespaceForPrefixChain : List Tree → Nat → Option Nat
   | [], p => basePrefixes.lookup p
   | a :: rest, p =>
     match a.getNamespace p with
-    | some ns => if ns == Env.noNamespace then none else some ns
+    | some ns => if ns == Env.noNamespace && p == Env.emptyPrefix then none else some ns
     | none => namespaceForPrefixChain rest p
 
 /-- Outcome of one inner `for (key, value) in …` loop of `namespace_prefix`:
